@@ -343,6 +343,16 @@ func collectYAML(n *yaml.Node, out *[]*yaml.Node) {
 	}
 }
 
+func cloneYAML(n *yaml.Node) *yaml.Node {
+	cp := *n
+	cp.Alias = nil
+	cp.Content = nil
+	for _, c := range n.Content {
+		cp.Content = append(cp.Content, cloneYAML(c))
+	}
+	return &cp
+}
+
 // mutateYAML performs one structure-aware corruption of a YAML document.
 func mutateYAML(r *Rand, doc string) (string, string) {
 	var root yaml.Node
@@ -406,13 +416,14 @@ func mutateYAML(r *Rand, doc string) (string, string) {
 	case 6: // copy another subtree here
 		o := Pick(r, nodes)
 		if n.Kind != yaml.DocumentNode && o.Kind != yaml.DocumentNode && o != n {
-			cp := *o
-			*n = cp
+			// a deep copy: grafting an ancestor of n by reference would make the tree cyclic
+			// (the encoder then never returns - a fault of the harness, not of cog)
+			*n = *cloneYAML(o)
 			note = "graft other subtree"
 		}
 	case 7: // negative / huge numbers
 		if n.Kind == yaml.ScalarNode {
-			n.Value = Pick(r, []string{"-1", "99999999999999999999", "1e400", "0x10", ".inf"})
+			n.Value = Pick(r, []string{"-1", "99999999999999999999", "1e400", "0x10", ".inf", "9223372036854775808", "18446744073709551615", ".nan", "2001-12-14"})
 			n.Tag = ""
 			n.Style = 0
 			note = "number -> " + n.Value
@@ -432,6 +443,57 @@ func mutateYAML(r *Rand, doc string) (string, string) {
 	enc.SetIndent(2)
 	if err := enc.Encode(&root); err != nil {
 		return mutateLines(r, doc)
+	}
+	return buf.String(), note
+}
+
+// dropTypeEntry removes one entry of one hand-written type definition (a mapping that has a
+// `kind` key) of a YAML document.
+func dropTypeEntry(r *Rand, doc string) (string, string) {
+	var root yaml.Node
+	if err := yaml.Unmarshal([]byte(doc), &root); err != nil || len(root.Content) == 0 {
+		return doc, "unparsable"
+	}
+	var nodes, defs []*yaml.Node
+	collectYAML(&root, &nodes)
+	for _, n := range nodes {
+		if n.Kind != yaml.MappingNode {
+			continue
+		}
+		for i := 0; i+1 < len(n.Content); i += 2 {
+			if n.Content[i].Value == "kind" && len(n.Content) >= 4 {
+				defs = append(defs, n)
+				break
+			}
+		}
+	}
+	if len(defs) == 0 {
+		return doc, "no type definition"
+	}
+	n := Pick(r, defs)
+	var cand []int
+	for i := 0; i+1 < len(n.Content); i += 2 {
+		if k := n.Content[i].Value; k != "kind" || r.Chance(1, 6) {
+			cand = append(cand, i)
+		}
+	}
+	if len(cand) == 0 {
+		return doc, "nothing to drop"
+	}
+	i := Pick(r, cand)
+	note := "drop " + n.Content[i].Value
+	if n.Content[i+1].Kind == yaml.MappingNode && len(n.Content[i+1].Content) >= 2 && r.Bool() {
+		// keep the block, empty it (`scalar: {}`)
+		n.Content[i+1].Content = nil
+		note = "empty " + n.Content[i].Value
+	} else {
+		n.Content = append(n.Content[:i], n.Content[i+2:]...)
+	}
+	var buf bytes.Buffer
+	enc := yaml.NewEncoder(&buf)
+	enc.SetIndent(2)
+	if err := enc.Encode(&root); err != nil {
+		return doc, "unencodable"
 	}
 	return buf.String(), note
 }
